@@ -1,0 +1,111 @@
+package internal
+
+import (
+	"sync"
+	"testing"
+	"time"
+
+	"github.com/stretchr/testify/require"
+)
+
+func returnsInTime(t *testing.T, msg string, fn func()) {
+	t.Helper()
+	done := make(chan struct{})
+	go func() {
+		fn()
+		close(done)
+	}()
+	select {
+	case <-done:
+	case <-time.After(10 * time.Second):
+		t.Fatal(msg)
+	}
+}
+
+// After Close the maintenance goroutine is gone, API calls must not block.
+func TestStore_NoBlockAfterClose(t *testing.T) {
+	store := NewStore[int, int](&StoreOptions[int, int]{MaxSize: 1000})
+	store.Set(1, 1, 1, 0)
+	store.Wait()
+	store.Close()
+
+	returnsInTime(t, "Wait blocked after Close", store.Wait)
+
+	// write channel is full and nobody receives from it
+	for len(store.writeChan) < cap(store.writeChan) {
+		store.writeChan <- WriteBufItem[int, int]{}
+	}
+	returnsInTime(t, "Wait blocked after Close", store.Wait)
+	returnsInTime(t, "Set blocked after Close", func() {
+		store.Set(1, 1, 1, 0)
+		store.Set(2, 2, 1, 0)
+	})
+	var err error
+	returnsInTime(t, "Delete blocked after Close", func() {
+		store.Delete(1)
+		err = store.DeleteWithSecondary(2)
+	})
+	require.Nil(t, err)
+	_, ok := store.Get(1)
+	require.False(t, ok)
+	_, ok = store.Get(2)
+	require.False(t, ok)
+	require.Equal(t, 0, store.Len())
+}
+
+// Writers blocked on a full write channel must be released by Close.
+func TestStore_CloseReleaseBlockedWriters(t *testing.T) {
+	store := NewStore[int, int](&StoreOptions[int, int]{MaxSize: 100000})
+
+	// block the maintenance goroutine: it takes the NEW item
+	// from write channel and then blocks on policy mutex.
+	store.policyMu.Lock()
+	store.Set(-1, -1, 1, 0)
+	require.Eventually(t, func() bool {
+		return len(store.writeChan) == 0
+	}, 5*time.Second, time.Millisecond)
+
+	// maintenance takes at most WriteBufferSize items per batch and might
+	// run several batches before it sees the close signal, start enough
+	// writers so many of them are still blocked on the full channel when that happens.
+	var wg sync.WaitGroup
+	writers := cap(store.writeChan) + 20*WriteBufferSize
+	for i := 0; i < writers; i++ {
+		wg.Add(1)
+		go func(i int) {
+			defer wg.Done()
+			switch i % 3 {
+			case 0:
+				store.Set(i, i, 1, 0)
+			case 1:
+				store.Set(i, i, 1, 0)
+				store.Delete(i)
+			case 2:
+				store.Set(i, i, 1, 0)
+				store.Wait()
+			}
+		}(i)
+	}
+	require.Eventually(t, func() bool {
+		return len(store.writeChan) == cap(store.writeChan)
+	}, 5*time.Second, time.Millisecond)
+
+	closed := make(chan struct{})
+	go func() {
+		store.Close()
+		close(closed)
+	}()
+	// Close marks all shards closed first, then waits for policy mutex
+	last := store.shards[len(store.shards)-1]
+	require.Eventually(t, func() bool {
+		tk := last.mu.RLock()
+		defer last.mu.RUnlock(tk)
+		return last.closed
+	}, 5*time.Second, time.Millisecond)
+	time.Sleep(10 * time.Millisecond)
+	store.policyMu.Unlock()
+
+	returnsInTime(t, "Close not returned", func() { <-closed })
+	returnsInTime(t, "blocked writers not released by Close", wg.Wait)
+	returnsInTime(t, "Wait blocked after Close", store.Wait)
+}
